@@ -62,7 +62,7 @@ pub fn gen_call(
         }
         Node::FunctionCall { name, args } => {
             let f_name = StringName::try_from(name)?;
-            gen_vec(args, env, false, ctx, constr)?;
+            gen_vec(args, &env.is_expr(true), false, ctx, constr)?;
 
             Ok(if f_name == StringName::from(function::PRINT) {
                 args.iter()
@@ -241,7 +241,7 @@ fn property_call(
             Expected::new(property.pos, &Field { name: lit.clone() })
         }
         Node::FunctionCall { name, args } => {
-            gen_vec(args, env, false, ctx, constr)?;
+            gen_vec(args, &env.is_expr(true), false, ctx, constr)?;
             let args = [last_inst.clone()]
                 .iter()
                 .chain(args)
